@@ -76,5 +76,47 @@ theorem foldl_add_exp (row : List ℝ) (m acc : ℝ) :
   | cons b bs ih => simp only [List.foldl_cons, ih, List.map_cons, List.sum_cons]; ring
 
 
+/-! ### list bookkeeping for the whole-gradient theorems -/
+
+theorem sumS_cons (a : ℝ) (l : List ℝ) : sumS (a :: l) = a + sumS l := by
+  rw [sumS_eq_sum, sumS_eq_sum, List.sum_cons]
+
+theorem dotS_eq_sum (a b : List ℝ) : dotS a b = (List.zipWith (· * ·) a b).sum := by
+  unfold dotS; exact sumS_eq_sum _
+
+theorem dotS_cons (a b : ℝ) (as bs : List ℝ) : dotS (a :: as) (b :: bs) = a * b + dotS as bs := by
+  rw [dotS_eq_sum, dotS_eq_sum]; simp
+
+theorem dotS_nil_left (b : List ℝ) : dotS ([] : List ℝ) b = 0 := by
+  rw [dotS_eq_sum]; simp
+
+/-- `dotS` is affine in one coordinate of its second argument -/
+theorem dotS_set (row p : List ℝ) (j : Nat) (t : ℝ) (hj : j < p.length) :
+    dotS row (p.set j t) = dotS row p + row.getD j 0 * (t - p.getD j 0) := by
+  induction row generalizing p j with
+  | nil => simp [dotS_nil_left]
+  | cons r rs ih =>
+    cases p with
+    | nil => simp at hj
+    | cons q qs =>
+      cases j with
+      | zero => simp [dotS_cons]; ring
+      | succ j =>
+        simp only [List.set_cons_succ, dotS_cons, List.getD_cons_succ]
+        rw [ih qs j (by simpa using hj)]
+        ring
+
+theorem dotS_set_self (p : List ℝ) (j : Nat) (t : ℝ) (hj : j < p.length) :
+    dotS (p.set j t) (p.set j t) = (dotS p p - p.getD j 0 * p.getD j 0) + t * t := by
+  induction p generalizing j with
+  | nil => simp at hj
+  | cons q qs ih =>
+    cases j with
+    | zero => simp [dotS_cons]; ring
+    | succ j =>
+      simp only [List.set_cons_succ, dotS_cons, List.getD_cons_succ]
+      rw [ih j (by simpa using hj)]
+      ring
+
 end Logistic
 end LinfaSpec
